@@ -453,8 +453,13 @@ func (r *vpC39Run) driver(done <-chan struct{}) {
 		victim.tKill = time.Now()
 		proc := victim.cmd.Process
 		r.mu.Unlock()
-		_ = proc.Kill()
-		// wait for the master's reaction to this exit: a new spawn attempt or the return
+		if err := proc.Kill(); err != nil {
+			// os.ErrProcessDone: the child had already exited AND been reaped, so the master has
+			// (or is about to have) reacted to that exit already; this kill is not a new exit event
+			continue
+		}
+		// the kill was delivered to a child nobody had reaped yet, so at least one exit is now
+		// unanswered: wait for the master's reaction, a new spawn attempt or the return
 		dl := time.After(10 * time.Second)
 	wait:
 		for {
